@@ -96,6 +96,8 @@ def check(run, project):
     n = check_threading(run, project, rule="Y0")
     run.require(n >= 30, f"Y0: only {n} threaded call sites found")
     y2(run, lg)
+    from .shared import discarded_generators
+    discarded_generators(run, project, "Y7")
     y4(run, lg)
     y5(run, lg)
     run.floor("Y1", 70, "failure sites")
@@ -239,7 +241,12 @@ def y4(run, lg):
         raise AnalysisError("Y4: constraint methods not found")
     # (a) padding must be charged to the enclosing regions
     pads = [c for c in walk_no_nested(ad) if isinstance(c, ast.Call) and call_name(c) == "consume_bytes"]
-    run.require(len(pads) == 1, "Y4: padding skip of assert_done not found")
+    if len(pads) != 1 or not isinstance(getattr(pads[0], "_parent", None), ast.YieldFrom):
+        run.ob("Y4", False, "assert_done skips the padding of a short region",
+               "assert_done() no longer runs `yield from consume_bytes(<limit - counted>)` after reporting a shortfall in warn mode: "
+               "decoding does not resume at the declared end of the region (the filler bytes are decoded as the next field)",
+               module=cm, node=pads[0] if pads else ad, func="SizeConstraint.assert_done", construct="padding skip")
+        return
     p_all = ad.args.args[1].arg
     uses = [n for n in walk_no_nested(ad) if isinstance(n, ast.Name) and n.id == p_all and isinstance(n.ctx, ast.Load)]
     charged = any(isinstance(u._parent, ast.Attribute) and u._parent.attr == "bytes_parsed" for u in uses)
